@@ -1,6 +1,7 @@
 import StepModel.GenFiles
 import StepModel.GenCxxPassLemmas
 import StepModel.GenCxxPassLink
+import StepModel.GenCxxPassDeferral
 import StepModel.GenCollectLemmas
 import StepModel.GenCxxMarksLemmas
 import StepModel.GenSelectOrderLemmas
@@ -604,6 +605,21 @@ theorem C17_mutual_dependency_witness :
     (Pass.printFile .untilSettledOrStalled .inSchemaOrProcessed [two, one] 6 true).printed = [("s_two", 1), ("s_one", 0), ("s_two", 2)] ∧
     (Pass.printFile .untilSettledOrStalled .inSchemaOrProcessed [two, one] 6 false).printed = [("s_two", 1), ("s_one", 0), ("s_two", 2)] := by
   decide
+
+/-- **With the deferral a schema is split only when the schemas are stuck**: a visit that prints a schema, nothing of which had been
+    printed before, with a suffix > 0 (`Sdai<S>_1.*` — a name the scanner does not list) happens only while `progress` is false;
+    and `progress` is true after a round exactly when that round made a `SCHEMAprint` call, no visit changing it in between.  So
+    the first split of any schema follows a complete round over the schemas of the file in which NOTHING could be printed — for
+    every file, every item structure, every dictionary order (sweep loop and last case arbitrary). -/
+theorem C17_first_split_only_after_a_round_without_print (l : Generated.CxxPass.SweepLoop) (lc : Generated.CxxPass.EnumLastCase) :
+    (∀ (fs : Pass.FileSt) (p : Pass.PSchema) (k : Nat), 0 < k → fs.counter p.name = 0 →
+        (Pass.visitSchema true l lc fs p).printed = fs.printed ++ [(p.name, k)] → fs.progress = false) ∧
+    (∀ (ps : List Pass.PSchema) (fs : Pass.FileSt),
+        ((Pass.round true l lc ps fs).progress = true ↔ fs.printed.length < (Pass.round true l lc ps fs).printed.length)) ∧
+    (∀ (fs : Pass.FileSt) (p : Pass.PSchema), (Pass.visitSchema true l lc fs p).progress = fs.progress) :=
+  ⟨fun fs p k hk hc hp => Pass.first_split_needs_no_progress l lc fs p k hk hc hp,
+   fun ps fs => Pass.round_progress true l lc ps fs,
+   fun fs p => (Pass.visit_tracks true l lc fs p).2⟩
 
 /-! ## the link between the two models: the pass assignment of the file-set model IS what the multpass model prints -/
 
